@@ -129,13 +129,15 @@ impl Monitor for C15 {
         let absent_near = |rng: &mut Rng, present: &[u32]| -> u32 {
             loop {
                 let base = *rng.pick(present);
-                let cand = match rng.below(6) {
+                let cand = match rng.below(7) {
                     0 => base + 1,
                     1 => base.saturating_sub(1),
                     2 => rng.range(1000, 9_999_999) as u32,
                     // ids beyond the 10^7 id space are absent by construction
                     3 => *rng.pick(&[10_000_000u32, 10_000_001, 12_345_678, u32::MAX, u32::MAX - 1]),
                     4 => 9_999_999,
+                    // an absent id whose low bits equal a present id (2^24, 2^31, 10^7 apart)
+                    5 => base.wrapping_add(*rng.pick(&[1u32 << 24, 1 << 31, 10_000_000, 20_000_000, 1 << 25])),
                     _ => 0,
                 };
                 if !present.contains(&cand) {
